@@ -69,6 +69,17 @@ Theorem C12_roundtrip_unprivileged :
 Proof. exact roundtrip_unprivileged. Qed.
 Print Assumptions C12_roundtrip_unprivileged.
 
+(* Known finding "link-through-file-rejected": a dangling relative link through a regular file
+   of the tree is refused when the file is extracted first, restored when it comes later. *)
+Theorem C12_link_through_file_refuted :
+  benign_tree [b "d"] (through_file_tree "a") = false /\
+  wf_treeb (through_file_tree "a") = true /\ modes_okb (through_file_tree "a") = true /\
+  extract [b "d"] 18 false (tar_entries [b "d"] true (through_file_tree "a")) = Err XSymlinkDir /\
+  exists f', extract [b "d"] 18 false (tar_entries [b "d"] true (through_file_tree "z")) = Ok f' /\
+    fs_lookup f' [b "l"] = Some (NLink (b "z/x/y")) /\ fs_lookup f' [b "z"] = Some (NFile (b "x") 420).
+Proof. exact through_file_refuted. Qed.
+Print Assumptions C12_link_through_file_refuted.
+
 (* The state of the directory when the extraction stops ([extract_partial]: the entries before
    the failing one, directories still with their creation mode) belongs to the same run as the
    verdict: same error, and on success the same file system. *)
@@ -239,6 +250,14 @@ Section Codec.
       = Ok (NFile content (N.ldiff 438 umask)).
   Proof. exact (file_roundtrip digest H digest_eqb digest_eqb_spec). Qed.
 
+  (* ... and that is the known finding "plain-file-mode-not-carried": *)
+  Theorem C12_plain_file_mode_refuted :
+    forall nm content,
+      exists m m', m <= 511 /\
+        push_file digest H digest_eqb 18 (file_descriptor digest H nm content) content = Ok (NFile content m') /\
+        m' <> N.ldiff m 18.
+  Proof. exact (plain_file_mode_refuted digest H digest_eqb digest_eqb_spec). Qed.
+
   Theorem C12_file_push_verified :
     forall umask d blob n,
       push_file digest H digest_eqb umask d blob = Ok n ->
@@ -268,6 +287,7 @@ Print Assumptions C12_wrong_blob_rejected.
 Print Assumptions C12_reproducible.
 Print Assumptions C12_file_roundtrip.
 Print Assumptions C12_file_push_verified.
+Print Assumptions C12_plain_file_mode_refuted.
 
 (* ... and regardless of the order in which any directory lists its entries:
    [same_tree] relates two listings of the same tree (children permuted at every level). *)
